@@ -119,7 +119,12 @@ func (n nopReorgDetector) AddBlockToTrack(context.Context, string, uint64, commo
 func (n nopReorgDetector) GetFinalizedBlockType() aggkittypes.BlockNumberFinality { return n.fin }
 func (n nopReorgDetector) String() string                                         { return "nop" }
 
-type c05Step struct{ DTip, DSafe, DFin int }
+type c05Step struct {
+	DTip, DSafe, DFin int
+	// On: the pointers also move when the node makes this kind of RPC before its next tip poll (time passes between any
+	// two RPCs): 0 only at a tip poll, 1 at a log query, 2 at a header-by-number query, 3 at a query of another pointer
+	On int
+}
 
 type c05Case struct {
 	Blocks    [][]int // per block (number = index+1): log kinds 0..5
@@ -130,6 +135,9 @@ type c05Case struct {
 	FaultKind []int // per fault: 0 FilterLogs error, 1 HeaderByNumber(number) error, 2 HeaderByNumber(number) NotFound, 3 tip poll error, 4 ProcessBlock error, 5 / 6 HeaderByNumber(number) / FilterLogs fails with an RPC timeout (wraps context.DeadlineExceeded), 7 the log appender fails once at that invocation before appending anything (appenders of the bridge syncer make an RPC per log)
 	FaultAt   []int // ordinal of the call of that kind
 	RestartAt int   // -1, or restart when the n-th RPC is made
+	// the operator may change the configuration before the restart: chunk size (0 = unchanged), block finality (-1 = unchanged)
+	Chunk2    uint64
+	Finality2 int
 }
 
 var finNames = []aggkittypes.BlockNumberFinality{aggkittypes.LatestBlock, aggkittypes.SafeBlock, aggkittypes.FinalizedBlock}
@@ -155,9 +163,9 @@ func c05Gen(ch choose.Chooser, enum bool, maxBlocks int) c05Case {
 			tip += dt
 			df := ch.Int(0, tip-fin, "dFin")
 			fin += df
-			c.Script = append(c.Script, c05Step{dt, tip, df}) // safe follows the tip in the enumeration
+			c.Script = append(c.Script, c05Step{dt, tip, df, 0}) // safe follows the tip in the enumeration
 		}
-		c.RestartAt = -1
+		c.RestartAt, c.Finality2 = -1, -1
 		return c
 	}
 	n := ch.Int(1, maxBlocks, "nBlocks")
@@ -174,16 +182,22 @@ func c05Gen(ch choose.Chooser, enum bool, maxBlocks int) c05Case {
 	c.FinType = ch.Int(0, 2, "finType")
 	ns := ch.Int(1, 8, "nSteps")
 	for i := 0; i < ns; i++ {
-		c.Script = append(c.Script, c05Step{ch.Int(0, 8, "dTip"), ch.Int(0, 8, "dSafe"), ch.Int(0, 8, "dFin")})
+		c.Script = append(c.Script, c05Step{ch.Int(0, 8, "dTip"), ch.Int(0, 8, "dSafe"), ch.Int(0, 8, "dFin"), choose.Pick(ch, []int{0, 0, 0, 1, 2, 3}, "stepOn")})
 	}
 	nf := choose.Pick(ch, []int{0, 0, 1, 2, 3}, "nFaults")
 	for i := 0; i < nf; i++ {
 		c.FaultKind = append(c.FaultKind, ch.Int(0, 7, "faultKind"))
 		c.FaultAt = append(c.FaultAt, ch.Int(0, 12, "faultAt"))
 	}
-	c.RestartAt = -1
+	c.RestartAt, c.Finality2 = -1, -1
 	if ch.Int(0, 3, "restart") == 0 {
 		c.RestartAt = ch.Int(1, 60, "restartAt")
+		if ch.Int(0, 2, "newChunkAtRestart") == 0 {
+			c.Chunk2 = uint64(choose.Pick(ch, []int{1, 2, 3, 5, 8, 50}, "chunk2"))
+		}
+		if ch.Int(0, 3, "newFinalityAtRestart") == 0 {
+			c.Finality2 = ch.Int(0, 2, "finality2")
+		}
 	}
 	return c
 }
@@ -225,7 +239,8 @@ func c05Run(c c05Case) (res c05Result, err error) {
 		chain.Extend(c05Logs(kinds))
 	}
 	n := uint64(len(c.Blocks))
-	tipTag := finTags[c.Finality]
+	curFinality, curChunk := c.Finality, c.Chunk // configuration of the running instance (may change at the restart)
+	tipTag := finTags[curFinality]
 	var (
 		mu        sync.Mutex
 		step      int
@@ -261,7 +276,26 @@ func c05Run(c c05Case) (res c05Result, err error) {
 		case call.Method == "HeaderByNumber" && call.Tag == tipTag:
 			kind = 3
 		}
-		if kind == 3 {
+		early := false
+		if kind != 3 && step < len(c.Script) {
+			switch c.Script[step].On {
+			case 1:
+				early = kind == 0
+			case 2:
+				early = kind == 1
+			case 3:
+				early = call.Method == "HeaderByNumber" && call.Tag != "" && call.Tag != tipTag
+			}
+		}
+		if early {
+			st := c.Script[step]
+			step++
+			lat = min64(lat+uint64(st.DTip), n)
+			safe = min64(safe+uint64(st.DSafe), lat)
+			fin = min64(fin+uint64(st.DFin), safe)
+			ch.SetPointersLocked(lat, safe, fin)
+			parkedRun = 0
+		} else if kind == 3 {
 			// the script clock: every tip poll of the node applies the next pointer move
 			if step < len(c.Script) {
 				st := c.Script[step]
@@ -318,7 +352,10 @@ func c05Run(c c05Case) (res c05Result, err error) {
 	}
 	rh := &aggkitsync.RetryHandler{RetryAfterErrorPeriod: time.Millisecond, MaxRetryAttemptsAfterError: -1}
 	start := func(ctx context.Context) (chan struct{}, error) {
-		dl, err := aggkitsync.NewEVMDownloader("c05", chain, c.Chunk, finNames[c.Finality], time.Millisecond, appender,
+		mu.Lock()
+		chunk, finality := curChunk, curFinality
+		mu.Unlock()
+		dl, err := aggkitsync.NewEVMDownloader("c05", chain, chunk, finNames[finality], time.Millisecond, appender,
 			[]common.Address{c05AddrW}, rh, finNames[c.FinType])
 		if err != nil {
 			return nil, err
@@ -344,7 +381,7 @@ func c05Run(c c05Case) (res c05Result, err error) {
 	visible := func() uint64 {
 		mu.Lock()
 		defer mu.Unlock()
-		switch c.Finality {
+		switch curFinality {
 		case 1:
 			return safe
 		case 2:
@@ -360,6 +397,13 @@ func c05Run(c c05Case) (res c05Result, err error) {
 			mu.Lock()
 			cancelFn = cancel
 			parkedRun = 0
+			if c.Chunk2 > 0 {
+				curChunk = c.Chunk2
+			}
+			if c.Finality2 >= 0 {
+				curFinality = c.Finality2
+				tipTag = finTags[curFinality]
+			}
 			mu.Unlock()
 			if done, err = start(ctx); err != nil {
 				cancel()
